@@ -345,6 +345,9 @@ def r2_dedup(prog, rep: Report, sf: SortedFacts):
                 verdicts.append((True, "adjacent-inequality filter over a sorted iteration", n))
             elif filt is False and sorted_iter:
                 verdicts.append((False, filt_why, n))
+            elif filt and loop is not None and not sorted_iter:
+                verdicts.append((False, f"`{src(n)}`: the adjacent-inequality filter runs over an iteration that is not sorted: equal values "
+                                        "that are not neighbours are both kept", n))
             elif seed:
                 verdicts.append((True, "first element of the sorted values seeds the storage", n))
             else:
@@ -354,7 +357,10 @@ def r2_dedup(prog, rep: Report, sf: SortedFacts):
                 else:
                     why = "not guarded by an inequality test against the previous kept value" if sorted_iter else \
                         "not appended from a sorted iteration with an adjacent-inequality filter"
-                    verdicts.append((False, f"`{src(n)}`: {why}", n))
+                    # positively wrong: an append on every round of a plain loop over the values (no guard, no break);
+                    # anything else (a peeled first round, a comparison against a remembered value) is another scheme
+                    plain_every_round = guard is None and loop is not None and not any(isinstance(x, ast.Break) for x in ast.walk(loop))
+                    verdicts.append((False if plain_every_round else None, f"`{src(n)}`: {why}", n))
         if isinstance(n, ast.Call) and isinstance(n.func, ast.Attribute) and n.func.attr in ("add",) \
                 and isinstance(n.func.value, ast.Name) and n.func.value.id == f.self_name:
             verdicts.append((True, "own add() de-duplicates", n))
@@ -371,10 +377,14 @@ def r2_dedup(prog, rep: Report, sf: SortedFacts):
     if not verdicts:
         rep.unrec("C09.R2", f, "set-dedup", "no write of initial values into the storage found")
     else:
-        bad = [v for v in verdicts if not v[0]]
-        rep.check("C09.R2", f, "set-dedup", not bad, "; ".join(v[1] for v in verdicts),
-                  "; ".join(v[1] for v in bad), scenario="SortedSet([1, 1, 2]) has len 3 and iterates 1, 1, 2",
-                  line=bad[0][2].lineno if bad else None)
+        bad = [v for v in verdicts if v[0] is False]
+        unknown = [v for v in verdicts if v[0] is None]
+        if unknown and not bad:
+            rep.unrec("C09.R2", f, "set-dedup", "; ".join(v[1] for v in unknown), unknown[0][2].lineno)
+        else:
+            rep.check("C09.R2", f, "set-dedup", not bad, "; ".join(v[1] for v in verdicts),
+                      "; ".join(v[1] for v in bad), scenario="SortedSet([1, 1, 2]) has len 3 and iterates 1, 1, 2",
+                      line=bad[0][2].lineno if bad else None)
     # ---- SortedMap
     c = sf.smap
     f = prog.method_view(c, "__init__")
